@@ -182,7 +182,7 @@ func init() {
 		Rule: "one case = one history (50/120 blocks) with 0..3 tax / confirmation-depth / minimum-deposit requests per block, values from {0,1,999,1000,1001,9999,10000,10001,1e8,1e8+1,2^32,2^63,2^64-1} and random 64-bit numbers, interleaved with deposits whose values sit at the minimum +-1, 10000/10001, the cap edge, 2^40 and 2^62; after every commit Query/Params must have rate < 10000, depth >= 1, minimum >= 1000 (> 1000 once changed) and equal a reference model that applies exactly the in-range requests in order; every credited deposit seen by the execution layer must have amount > 0, tax < value, value >= the minimum in force (C03's oracle runs as well). " +
 			"Non-trivial = a block with parameter requests; distinct = (request counts, classes of the resulting rate and minimum).",
 		Assume: []string{"the tax cap is not bounded by the statement and is not judged"},
-		Cases:  func(tier string) int { return map[string]int{"quick": 16, "thorough": 150}[tier] },
+		Cases:  func(tier string) int { return map[string]int{"quick": 32, "thorough": 150}[tier] },
 		Run:    func(c *vc.Ctx, i int) { c20History(c, i) },
 	})
 }
